@@ -266,7 +266,11 @@ class Ctx:
             if not m:
                 self.violate("tie-broken", leg, {"file": fn, "output": out[-1000:]}, key=leg + ":parse", found_input=False)
                 continue
-            pairs = re.findall(r"\((\d+)(?:%N)?\s*,\s*(\d+)(?:%N)?\)", m.group(1))
+            pairs = re.findall(r"\(\s*(\d+)(?:%N)?\s*,\s*(\d+)(?:%N)?\s*\)", m.group(1))
+            # every element of the printed list must have been recognised (Coq wraps long lists)
+            if m.group(1).count("(") != len(pairs):
+                self.violate("tie-broken", leg, {"file": fn, "error": "could not scan the mismatch list", "output": m.group(1)[:500]},
+                             key=leg + ":parse", found_input=False)
             if pairs:
                 lines = case_lines(fn)
                 for i, v in pairs:
